@@ -151,14 +151,16 @@ fn run_chunk(buf: &[u8]) -> String {
 
 /// C18: parse the history buffers, then the probe, on ONE Request/Response value and header array; compare the probe's
 /// outcome with the same probe on a fresh value over a fresh array of the same current length.
-fn run_hist(is_req: bool, flags: u32, cap: usize, bufs: &[Vec<u8>]) -> String {
+fn run_hist(is_req: bool, flags: u32, cap: usize, bufs: &[Vec<u8>], pre: &[Option<usize>]) -> String {
     let c = cfg(flags);
     let (hist, probe) = bufs.split_at(bufs.len() - 1);
     let probe: &[u8] = &probe[0];
+    // a history item `pK` is the first K bytes of the probe buffer ITSELF (same memory): the documented read-more-and-parse-again loop
+    let hist: Vec<&[u8]> = hist.iter().enumerate().map(|(i, h)| match pre[i] { Some(k) => &probe[..k.min(probe.len())], None => &h[..] }).collect();
     let mut arr = sentinels(); let mut arr2 = sentinels();
     if is_req {
         let mut req = Request::new(&mut arr[..cap]);
-        for h in hist { let _ = c.parse_request(&mut req, h); }
+        for h in hist.iter() { let _ = c.parse_request(&mut req, h); }
         let len_now = req.headers.len();
         let r1 = c.parse_request(&mut req, probe);
         let mut fresh = Request::new(&mut arr2[..len_now]);
@@ -172,7 +174,7 @@ fn run_hist(is_req: bool, flags: u32, cap: usize, bufs: &[Vec<u8>]) -> String {
         return format!("{{\"status\":\"H\",\"n\":0,\"differs\":{}}}", if d.is_empty() { "null".to_string() } else { format!("{:?}", d) });
     }
     let mut resp = Response::new(&mut arr[..cap]);
-    for h in hist { let _ = c.parse_response(&mut resp, h); }
+    for h in hist.iter() { let _ = c.parse_response(&mut resp, h); }
     let len_now = resp.headers.len();
     let r1 = c.parse_response(&mut resp, probe);
     let mut fresh = Response::new(&mut arr2[..len_now]);
@@ -244,9 +246,11 @@ fn main() {
         if p.len() < 3 { continue; }
         let entry = p[0].to_string(); let flags: u32 = p[1].parse().unwrap_or(0); let cap: usize = p[2].parse().unwrap_or(0);
         if entry.starts_with("hist_") {
-            let bufs: Vec<Vec<u8>> = (if p.len() > 3 { p[3] } else { "" }).split('-').map(unhex).collect();
+            let items: Vec<&str> = (if p.len() > 3 { p[3] } else { "" }).split('-').collect();
+            let pre: Vec<Option<usize>> = items.iter().map(|s| if s.starts_with('p') { s[1..].parse().ok() } else { None }).collect();
+            let bufs: Vec<Vec<u8>> = items.iter().map(|s| if s.starts_with('p') { Vec::new() } else { unhex(s) }).collect();
             let is_req = entry == "hist_req";
-            let res = panic::catch_unwind(panic::AssertUnwindSafe(|| run_hist(is_req, flags, cap.min(MAXCAP), &bufs)));
+            let res = panic::catch_unwind(panic::AssertUnwindSafe(|| run_hist(is_req, flags, cap.min(MAXCAP), &bufs, &pre)));
             let imp = match res { Ok(s) => s, Err(_) => "{\"status\":\"PANIC\",\"n\":0,\"differs\":\"panic\"}".into() };
             let _ = writeln!(out, "{{\"impl\":{},\"ref\":{{}}}}", imp);
             let _ = out.flush();
